@@ -816,6 +816,37 @@ func (e *env) openPhaseCheck() string {
 		if stops && !p.closed {
 			return fmt.Sprintf("takeWhile: a failing element was offered, delivered %v, but the output is not closed while the input stays open", p.delivered)
 		}
+	case "join":
+		// every input has its own copier: with a fair consumer everything offered comes out while the inputs stay open
+		total := 0
+		for i := range sc.In {
+			if sc.N > 0 && len(sc.In) >= 2 && i == len(sc.In)-1 {
+				continue // aliased scenario: the last declared channel was never handed to Join
+			}
+			total += e.next[i] // an input the script closed early keeps the rest of its elements
+		}
+		if p := e.ports[0]; len(p.delivered) != total && !p.closed {
+			return fmt.Sprintf("join of %d inputs: all %d elements were offered and the consumer is ready, but only %d came out while the inputs stay open (an input is not being served); delivered %v", len(sc.In), total, len(p.delivered), p.delivered)
+		}
+	case "filter", "partition":
+		if sc.Par == 0 {
+			n := 0
+			for _, p := range e.ports {
+				n += len(p.delivered)
+			}
+			want := len(sc.In[0])
+			if sc.Stage == "filter" {
+				want = 0
+				for _, x := range sc.In[0] {
+					if sc.pred(x) {
+						want++
+					}
+				}
+			}
+			if n != want {
+				return fmt.Sprintf("%s: all %d elements were offered and the consumer is ready, but %d of the expected %d came out while the input stays open", sc.Stage, len(sc.In[0]), n, want)
+			}
+		}
 	}
 	return ""
 }
